@@ -761,7 +761,9 @@ pub fn c19(rec: &mut Rec, lm: &Landmarks, rng: &mut Rng, thorough: bool) {
         m.rec.ev("render_const", format!("\"name\":\"{}\",\"off\":{},\"res\":{}", name, jdur(off), jtext(&r)), true);
         if name == "ISO8601" && i % 3 != 0 {
             // the ISO 8601 formatter output is compared with the default display
-            m.fmt_epoch("display", ts);
+            let iso = catch(|| format!("{}", Formatter::new(a, consts::ISO8601)));
+            let disp = catch(|| format!("{a}"));
+            m.rec.ev("iso_vs_display", format!("\"iso\":{},\"disp\":{},\"res\":{{\"v\":1}}", jtext(&iso), jtext(&disp)), true);
         }
     }
     // all formats of 1..3 tokens with a separator after each but the last (exhaustive), rendered on sample epochs
